@@ -110,6 +110,38 @@ def variants(program, rng):
     yield 'rescaled', drawgen.rescale(program, rng.choice([2, 2.5, 4, 7]))      # below ~1.5 schemdraw cannot fit a source between the points
     yield 'subdivided', drawgen.subdivide(program, rng)
     yield 'reordered', drawgen.reorder(program, rng)
+    if has_wire_cycle(program):
+        for v in wire_orders(program, rng, 24):
+            yield 'wires-reordered(ring)', v
+
+
+def has_wire_cycle(program):
+    rep = {}
+
+    def find(p):
+        rep.setdefault(p, p)
+        while rep[p] != p:
+            p = rep[p]
+        return p
+    for s in program['symbols']:
+        if s['cls'] == 'Line':
+            a, b = find(tuple(s['p'])), find(tuple(s['q']))
+            if a == b:
+                return True
+            rep[a] = b
+    return False
+
+
+def wire_orders(program, rng, n):
+    """the same drawing with only the wires inserted in another order (the closure must not depend on it)"""
+    idx = [k for k, s in enumerate(program['symbols']) if s['cls'] == 'Line']
+    for _ in range(n):
+        perm = idx[:]
+        rng.shuffle(perm)
+        out = copy.deepcopy(program)
+        for k, j in zip(idx, perm):
+            out['symbols'][k] = copy.deepcopy(program['symbols'][j])
+        yield out
 
 
 def shrink(program, pred, max_steps=25):
